@@ -49,6 +49,9 @@ CLAIMED['C07'] = dict(design='8/C07', technique='deductive verification: per-fun
 CLAIMED['C08'] = dict(design='8/C08', technique='deductive verification: postconditions of NASEncrypt/NASMacCalculate from the statement, safety obligations for all lengths, frame obligations; laws as consequences of a keystream function without payload argument; z3/cvc5',
    text='Proof of the API laws for all 256 algorithm identities, bearers, directions and all payload lengths including 0: guards give errors and leave the payload untouched, otherwise payload[j] = old payload[j] xor KS(alg,key,count,bearer,direction,j) (involution, prefix stability, plaintext independence follow), algorithm 0 is the identity / all-zero MAC, MAC is exactly 4 fresh octets, key and message unmodified, no panic.',
    note=TB_CRYPTO)
+CLAIMED['C17'] = dict(design='8/C17', technique='deductive verification: contracts against independent decoders of TS 24.008 / TS 23.038 for the integer encoders; symbolic-character harnesses over the complete input grammar for the string-driven encoders; network-name packing enumerated over its 65 lengths; z3/cvc5',
+   text='Proof for all durations in range that GPRS timer 2/3 octets decode to at most the requested duration and exactly to it when representable; for all 65536 values x 5 units x both directions that the session AMBR octets carry the value and the Table 9.11.4.14.1 unit code; for every quarter-hour zone string with adjustment 0/1/2 (total within +-79 quarters) that the zone octet decodes to zone plus adjustment; for every name length 0..64 and all 7-bit characters that the packed text unpacks to the name with the right length octet and spare-bit count.',
+   note='Bounded part: name length is enumerated 0..64 (the property\'s own range), characters symbolic. Universal time stamps: only field coding, time.Time/time.Date are trusted dependencies (instants 2000-2099 not proved). Exact models of strings.Split/strconv.ParseUint on explicit strings are trusted.')
 REASONS = {}
 checks = []
 for p in props:
